@@ -49,6 +49,8 @@ func runC19(c *Ctx, r *Report) {
 	c19VersionParsing(c, r)
 	c19PickOne(c, r)
 	c19OutputWrites(c, r)
+	c19FlagPrecedence(c, r)
+	c19InputLimits(c, r)
 	c19DynCompPremise(c, r)
 	r.set("generator_functions", nFuncs)
 	r.set("map_ranges", n)
